@@ -69,6 +69,10 @@ for f in outs:
             for cls, n in sorted(unknown_classes.items()):
                 lines.append("VIOLATION property=%s replay=%s check=%s class=%s inputs=%d" % (pid, replay, rep['check'], cls, n))
                 violations += 1
+        if rep['check'].startswith('rule-strings'):
+            cov["comparison"] = {"check": rep['check'], "scope": rep.get('scope'), "cases": rep.get('cases'), "violations": vs,
+                                 "note": "textual comparison, not a deduction; does not change the level of the deductive part"}
+            continue
         bounded.append({"check": rep['check'], "function": rep.get('function'), "scope": rep.get('scope'), "cases": rep.get('cases'),
                         "distinct_nontrivial": rep.get('distinct_nontrivial'), "exhaustive": rep.get('exhaustive'),
                         "violations_by_class": byclass, "samples": rep.get('samples')})
